@@ -183,6 +183,16 @@ def gen_sm_segments(rng):
             p = rparam(rng, key, ncomps=nc)
             if nc >= 6 and rng.random() < 0.7:
                 p[2][:6] = ["\n     dance-single", "\n     " + rng.choice(["desc", "K\\O mix", "a\\"]), "\n     Hard", "\n     9", "\n     0,0,0", "\n0000\n0001\n,\n1000\n0000\n"]
+            if nc >= 6 and rng.random() < 0.2:
+                # fields framed by blanks that only str.strip() knows (NBSP, ideographic space, separators), also in the
+                # compact one-line layout where no field has an ASCII blank at its edge
+                uws = ["\u00a0", "\u3000", "\u2028", "\x1c", "\u2003", "\x0c", "\u0085", "\x0b"]
+                if rng.random() < 0.5:
+                    p[2][:6] = ["dance-single", "desc", "Hard", "12", "0,0", "0000\n0001\n1000\n0000"]
+                for _ in range(rng.randint(1, 3)):
+                    i = rng.randrange(6)
+                    w = rng.choice(uws)
+                    p[2][i] = (w if rng.random() < 0.6 else "") + p[2][i] + (w if rng.random() < 0.6 else "")
             segs.append(p)
             if nc >= 6 and rng.random() < 0.35:
                 # a twin chart: the same six fields, other extra components; long note data now and then
